@@ -50,8 +50,10 @@ func c16CaseCwd(c *c16Case) string {
 		switch {
 		case c.Variant == 1:
 			return "W"
-		case c.Variant >= 8 && c.Variant <= 12, c.Variant == 18, c.Variant == 19:
+		case c.Variant >= 8 && c.Variant <= 12, c.Variant == 18, c.Variant == 19, c.Variant == 24:
 			return "root"
+		case c.Variant == 21, c.Variant == 22, c.Variant == 23, c.Variant == 25:
+			return "W"
 		}
 	case 2:
 		if c.Variant == 6 {
